@@ -147,8 +147,8 @@ impl Prop for C02 {
         };
         // The statement constrains accepted unit words only; a prefixed word
         // the tool rejects outright (`kton` lexes as kt+on) is C05's business.
-        if let Res::Err { msg, .. } = &got {
-            if msg.contains("is not a valid unit") {
+        if let Res::Err { .. } = &got {
+            if obs::rejected_unit_word(env.db(), q).is_some() {
                 return Verdict::DontCare("unit word rejected by the tool");
             }
         }
